@@ -110,17 +110,17 @@ Proof.
     destruct ((others s c =? 1) && match hub s c with None => true | Some _ => false end); inv H; sstep SI CI.
 Qed.
 
-Theorem exec_S l : forall s s', SInv s -> CbInv s -> InvBS s -> exec l s = Some s' -> SInv s'.
+Theorem exec_S l : forall s s', SInv s -> CbInv s -> InvBS s -> LInv s -> exec l s = Some s' -> SInv s'.
 Proof.
-  induction l as [|x l IH]; cbn; intros s s' SI CI I H.
+  induction l as [|x l IH]; cbn; intros s s' SI CI I LI H.
   - inv H. auto.
   - destruct (astep s x) as [s1|] eqn:E; [|discriminate].
-    apply (IH s1 s'); auto; [eapply astep_S|eapply astep_Cb|eapply astep_B]; eauto.
+    apply (IH s1 s'); auto; [eapply astep_S|eapply astep_Cb|eapply astep_B|eapply astep_L]; eauto.
 Qed.
 
 Theorem skipped_only_before_connect sched s a b c g :
   exec sched init = Some s -> trace s = a ++ EvUnsubSkipped c g :: b -> ~ In EvConnectCb a.
 Proof.
-  intros E. assert (SI : SInv s) by (eapply exec_S; eauto; [apply SInv_init|apply CbInv_init|apply InvBS_init]).
+  intros E. assert (SI : SInv s) by (eapply exec_S; eauto; [apply SInv_init|apply CbInv_init|apply InvBS_init|apply LInv_init]).
   apply SI.
 Qed.
